@@ -246,6 +246,12 @@ KERNELS = [
     dict(name='corruptFilesFn', kind='loop', file='torf/_errors.py', func='VerifyContentError.__init__',
          params=[('piece_index', 'Int'), ('piece_size', 'Int')], ignore=('filepath',), files='file_sizes', pairs=True,
          result='self._files', ret='Files'),
+    # --- the dictionary keys Torrent.validate / Torrent.read_stream read (C08): every string constant the function uses as a
+    #     key (subscript, .get/.pop, in / == test, key-path tuple; harness/gen/keyharvest.py), sorted.  The bridge theorems say
+    #     that each of them is in the vocabulary of the model (Model/KeyVocabulary.lean), outside of which the model provably
+    #     ignores a metainfo (C08_unknown_key_irrelevant): a key the code starts reading breaks the obligation
+    dict(name='validateKeys', kind='keys', file='torf/_torrent.py', func='Torrent.validate'),
+    dict(name='readStreamKeys', kind='keys', file='torf/_torrent.py', func='Torrent.read_stream'),
 ]
 
 
@@ -1374,6 +1380,23 @@ def translate_names(repo, k):
     return f'def {k["name"]} : List String :=\n  [' + ', '.join(out) + ']'
 
 
+def translate_keys(repo, k):
+    """the string constants a function uses as dictionary keys (primary uses of harness/gen/keyharvest.py), sorted"""
+    from harness.gen import keyharvest
+    tree = ast.parse(open(os.path.join(repo, k['file'])).read())
+    prim, _ = keyharvest.harvest_tree(_find_func(tree, k['func']))
+    out = []
+    for key in sorted(prim):
+        try:
+            t = key.decode('utf8')
+        except UnicodeDecodeError:
+            raise CannotTranslate(f'key {key!r} is not UTF-8')
+        if not (t.isascii() and t.isprintable() and '"' not in t and '\\' not in t):
+            raise CannotTranslate(f'key {t!r}')
+        out.append('"' + t + '"')
+    return f'def {k["name"]} : List String :=\n  [' + ', '.join(out) + ']'
+
+
 def translate_kernel(repo, k):
     if k.get('kind') == 'names':
         return translate_names(repo, k)
@@ -1383,6 +1406,8 @@ def translate_kernel(repo, k):
         return translate_strings(repo, k)
     if k.get('kind') == 'loop':
         return translate_loop(repo, k)
+    if k.get('kind') == 'keys':
+        return translate_keys(repo, k)
     src = open(os.path.join(repo, k['file'])).read()
     tree = ast.parse(src)
     fn = _find_func(tree, k['func'])
